@@ -291,6 +291,9 @@ def check(ctx):
     for cls in CLASSES:
         comp = Component(ctx.repo, REL, cls, rule="C23")
         comp.require_modelled("C23")
+        from . import kinds
+
+        totals["reset-less-registers"] = totals.get("reset-less-registers", 0) + kinds.register_wire_discipline(ctx, "C23", comp, cls)
         for k, ex in enumerate(comp.configs):
             cn = cfg_name(ex)
             totals["shape"] += shapes_rule(ctx, comp, ex, cls, cn)
